@@ -204,6 +204,16 @@ func (f *DB) Reload(path string, validationKey []byte, reloadTimeout time.Durati
 			return f, err
 		}
 
+		if newDBI == f.dbi {
+			// Same backend (e.g. RocksDB caught up with its primary): it is still the
+			// DB we are serving from, so validate it in place and never destroy it.
+			if err = f.ValidateDbKey(validationKey); err != nil {
+				glog.Errorf("Key validation for reloaded DBI failed")
+				return f, err
+			}
+			return f, nil
+		}
+
 		// Validate newDBI
 		newDB := &DB{dbi: newDBI}
 		err = newDB.validateDbKeyOrDestroy(validationKey)
